@@ -204,7 +204,6 @@ def run_field_at_position(mutate=None, prefixes=("C20.", "C08.")):
             for vector in (False, True):
                 del calls[:], conv[:]
                 Real = L["Solution"]
-                s = Real.__new__(Real)
                 areas = np.array([0.5, 0.25, 0.125])
                 xi = 0.4
                 dev = type("Dev", (), {})()
@@ -215,8 +214,8 @@ def run_field_at_position(mutate=None, prefixes=("C20.", "C08.")):
                 dev.length_units = lu
                 dev.layer = type("Lay", (), {"z0": 0.125})()
                 dev.film = type("F", (), {"contains_points": lambda self_, p: np.zeros(len(p), dtype=bool)})()
-                s.device = dev
-                s._current_units, s._field_units = cu, "mT"
+                from checks import solution_common as _sc
+                s = _sc.new_solution(Real, dev, "mT", cu)
                 s.supercurrent_density, s.normal_current_density = Dens("Ks"), Dens("Kn")
                 pos = np.array([[0.3, 0.2], [1.5, -0.5]])
                 tot = s.field_at_position(pos, zs=0.75, vector=vector)
@@ -234,6 +233,16 @@ def run_field_at_position(mutate=None, prefixes=("C20.", "C08.")):
                 check(f"C20.field_at_position.converted_from_tesla[{tag}]", z3.BoolVal(all(cv["old_units"] == "tesla" and cv["units"] == "mT" and cv["ureg"] == "UREG" for cv in conv)))
                 check(f"C20.total_is_sum_of_supercurrent_and_normal_parts[{tag}]", z3.BoolVal(tot.tag == ("sum", ("B", ("H", 1)), ("B", ("H", 2)))
                                                                                              and parts.supercurrent.tag == ("B", ("H", 3)) and parts.normal_current.tag == ("B", ("H", 4))))
+                # history: the same solution object after its sheet currents changed (another frame loaded / currents reassigned)
+                n0 = len(calls)
+                s.supercurrent_density, s.normal_current_density = Dens("Ks_later"), Dens("Kn_later")
+                if hasattr(s, "_vorticity"):
+                    s._vorticity = None
+                s.field_at_position(pos, zs=0.75, vector=vector)
+                later = calls[n0:]
+                check(f"C20.field_at_position.follows_the_currents_the_solution_holds_now[{tag}]",
+                      z3.BoolVal(len(later) == 2 and later[0]["current_densities"] == ("J", "Ks_later", f"{cu} / {lu}") and later[1]["current_densities"] == ("J", "Kn_later", f"{cu} / {lu}")),
+                      note=str([k.get("current_densities") for k in later]))
     obls, n = sym.explore(body)
     return dict(obls=obls, paths=n, sources=[L.info()], consistent=True)
 
@@ -731,6 +740,27 @@ def native(seed=0):
                     ref_app = np.asarray(sol.applied_vector_potential(Pz[:, 0], Pz[:, 1], Pz[:, 2]))
                     if not np.allclose(app[:, :ref_app.shape[1]], ref_app, rtol=1e-12, atol=1e-30):
                         bad.append(dict(what="Solution.vector_potential_at_position: the applied part is not the applied potential in field*length units", current_units=cu_, units=out_u))
+                # the same solution object moved to an earlier frame: fields and potentials are those of the currents it holds NOW
+                if sol.data_range is not None and sol.data_range[1] >= 2:
+                    sol.solve_step = 1
+                    got = sol.field_at_position(P, zs=zs, vector=True, units="tesla", with_units=False)
+                    ref = 0
+                    for nm in ("supercurrent_density", "normal_current_density"):
+                        J = getattr(sol, nm).to(f"{cu_} / um").magnitude
+                        ref = ref + em.biot_savart_2d(P[:, 0], P[:, 1], zs * np.ones(len(P)), positions=sol.device.points, current_densities=J, z0=0.75,
+                                                      areas=sol.device.mesh.areas * sol.device.coherence_length.magnitude ** 2, length_units="um", current_units=cu_, vector=True).to("tesla").magnitude
+                    n += 1
+                    if not np.allclose(np.asarray(got), ref, rtol=1e-9, atol=1e-30):
+                        bad.append(dict(what="Solution.field_at_position after moving the solution to another frame is not the field of that frame's currents (request a field, set solve_step, request again)",
+                                        current_units=cu_, max_rel_dev=float(np.abs(np.asarray(got) - ref).max() / (np.abs(ref).max() + 1e-300))))
+                    parts = sol.vector_potential_at_position(Pz, units="tesla * meter", return_sum=False)
+                    for nm in ("supercurrent_density", "normal_current_density"):
+                        K_si = getattr(sol, nm).to("A / m").magnitude
+                        ref = mu_0 / (4 * np.pi) * np.einsum("jk,ij,j->ik", K_si, 1 / rr, sol.device.mesh.areas * xi_ ** 2 * um ** 2)
+                        n += 1
+                        if not np.allclose(parts[nm].to("tesla * meter").magnitude[:, :2], ref, rtol=1e-9, atol=1e-30):
+                            bad.append(dict(what=f"Solution.vector_potential_at_position after moving the solution to another frame: the {nm} part is not that frame's", current_units=cu_))
+                    sol.solve_step = sol.data_range[1]
                 # physical sheet current density = K0 (current units / length units) * site average of the dimensionless edge currents
                 n += 1
                 js = sol.device.mesh.get_quantity_on_site(sol.tdgl_data.supercurrent) + sol.device.mesh.get_quantity_on_site(sol.tdgl_data.normal_current)
